@@ -241,7 +241,8 @@ def run(ctx):
                 gpa = [n for m, n in chain if m == "getProperAncestors"]
                 flt = [n for m, n in chain if m == "filter_by"]
                 a1 = bool(gpa) and bool(flt) and const_eval(gpa[0]["a"][1]) == 0 and \
-                    any(is_call(x, ALG + "isCompoundStateOrScxmlElement") for x in hirq.walk(flt[0]["a"][0]))
+                    any(is_call(x, ALG + "isCompoundStateOrScxmlElement") or is_call(x, ALG + "isCompoundState") for x in hirq.walk(flt[0]["a"][0]))
+                # (which states the filter lets through - <scxml> root and compound states only - is decided by R01.10 on the closure itself)
                 # head of the list is the start of the ancestor walk
                 hb, hc = method_chain(fn, gpa[0]["a"][0]) if gpa else (None, [])
                 a1 = a1 and [m for m, _ in hc] == ["head"] and param_index(fn, hb) == 1
@@ -582,7 +583,31 @@ def run(ctx):
             except Ret as r:
                 return r.v
 
+        # the candidate-ancestor filter of findLCCA (`filter_by(&|s| ..)`): root and compound states only, whether it calls the helper
+        # isCompoundStateOrScxmlElement or spells the disjunction out
+        lcca = F.fn(ALG + "findLCCA")
+        filt = [c for c in lcca.walk() if c.get("k") == "mcall" and c["m"] == "filter_by" and c["a"]]
+        ctx.exact("R01.10", "filter_by calls in findLCCA", len(filt), 1)
+        for c in filt:
+            clos = [x for x in hirq.walk(c["a"][0]) if x.get("k") == "closure"]
+            got, why = "", ""
+            if len(clos) == 1 and len(clos[0]["params"]) == 1 and clos[0]["params"][0].get("k") == "bind":
+                for sid in sorted(KINDS):
+                    try:
+                        try:
+                            v = ev(lcca, clos[0]["body"], {clos[0]["params"][0]["b"]: sid, lcca.params[0].get("b"): ("self",)}, 3)
+                        except Ret as r:
+                            v = r.v
+                        got += "T" if v is True else ("F" if v is False else "?")
+                    except Unknown as e:
+                        got += "?"
+                        why = str(e)
+            ctx.ob("R01.10", site_key(lcca, "candidate ancestors are the root and compound states"), got == "TTFFFF", line_of(c),
+                   "the filter closure gives %s over root/compound/atomic/parallel/final/history, expected TTFFFF%s" % (got or "nothing", ("; not evaluable: " + why) if "?" in got or not got else ""))
+
         for name in PREDS:
+            if name == "isCompoundStateOrScxmlElement" and not F.has_fn(ALG + name):
+                continue    # a private helper of findLCCA: inlined, its table is the filter closure's (above)
             fn = F.fn(ALG + name)
             takes_state = "State" in (fn.params[1].get("ty", "") if len(fn.params) > 1 else "") and "StateId" not in fn.params[1].get("ty", "")
             got = ""
